@@ -341,6 +341,9 @@ func runItems(u *vk.Unit, tag string, items []Case, label func(Case) string) {
 			if out.Class == regen.GoFormat && nameHasLineBreak(c.Spec) {
 				cl = "go-format-control-character-in-name"
 			}
+			if out.Class == regen.TemplateExec && strings.Contains(out.Err, `template "faker"`) && strings.Contains(out.Err, "error calling FakeFields") && strings.Contains(out.Err, "maximumProperties") {
+				cl = "faker-refuses-object-with-property-count-bound"
+			}
 			u.Report(vk.F(cl, "%s: generation ends with %s: %s", c.Name, out.Class, tail(out.Err, 700)), c)
 		}
 	}
